@@ -269,7 +269,15 @@ func (n *Net) RoundTrip(req *http.Request) (*http.Response, error) {
 		call.Mutate(req, e)
 	}
 	if n.fault(call, e, n.faults.StripMethod, "strip-method") {
-		req.Header.Del("X-RestLi-Method")
+		if call != nil && call.Res.Kind != "collection" && kern.Choose(2, "lie-method") == 1 {
+			// a simple resource's method ALWAYS follows from the verb and the action parameter: a
+			// (foreign) header naming some other method must change nothing
+			names := []string{"get", "delete", "update", "partial_update", "get_all", "create", "batch_get", "action", "finder"}
+			req.Header.Set("X-RestLi-Method", names[kern.Choose(len(names), "lie-method-name")])
+			n.c.Probe("simple-resource-contradicting-header")
+		} else {
+			req.Header.Del("X-RestLi-Method")
+		}
 	}
 	var buf bytes.Buffer
 	if err := req.Write(&buf); err != nil {
